@@ -9,6 +9,13 @@ Tied to the code by
  (b) K-srv: the real create_server / TcpWSGIServer / HTTPChannel / wasyncore.loop
      / trigger driven over a fake kernel and a fake clock on seeded event
      histories, compared with the extracted model after every event;
+ (b') the loop bodies: wasyncore.poll, poll2 and readwrite translated too (event mask
+     registered per object, dispatch per returned flag), proved to dispatch
+     handle_read_event only to objects whose readable() was true at scan time
+     (Props/C18.v, C18_loop_*), tied by K-preds on the real functions over a fake
+     select / select.poll, by a third of the histories running under poll2, and by
+     the loop-level statement evaluated on the real functions for every scan outcome
+     and every admissible kernel answer;
  (c) search: the property's monitors (limit, admission, never-busy, reaping
      deadline) evaluated directly on the real trace.
 Known finding F21 (kf_c18_stalled_peer): a marked connection whose socket is
@@ -118,6 +125,37 @@ def run(ctx):
     ctx.oblige("K-preds: generated predicates agree with the real readable/writable/handle_write/maintenance/poll on every field combination",
                preds_ok, "" if preds_ok else repr(pred_mismatch))
 
+    # ---- loop-level statement (C18_loop_read_only_if_readable / _write_only_if_writable) on the real
+    #      wasyncore.poll / poll2 / readwrite: every scan outcome x every admissible kernel answer
+    loop_turns, loop_bad = H.loop_search()
+    evaluations += loop_turns
+    dist["loop_turns_select_and_poll"] = loop_turns
+    ctx.oblige("loop: real poll/poll2 dispatch handle_read_event only to objects whose readable() was true at scan time, handle_write_event only if writable()",
+               not loop_bad, "" if not loop_bad else "%d violating turns, first: %r" % (len(loop_bad), loop_bad[0]["what"]))
+    seen_loop = set()
+    for v in loop_bad:
+        key = "loop:%s:%s" % (v["loop"], v["what"][:30])
+        if key in seen_loop:
+            continue
+        seen_loop.add(key)
+        ctx.report(key, "%s: %s (readable()=%s writable()=%s accepting=%s, kernel answer %r)" % (
+            v["loop"], v["what"], v["readable"], v["writable"], v["accepting"], v["kernel_answer"]),
+            dict(v, expected="handler dispatched only if the predicate was true at scan time", observed=v["what"]))
+
+    # ---- teardown from inside received() (Expect: 100-continue + client reset): the loop must go on
+    probe_bad = []
+    for up in (False, True):
+        for text in H.teardown_probe(use_poll=up):
+            probe_bad.append(("poll2" if up else "select", text))
+    evaluations += 2
+    ctx.oblige("teardown probe: a connection closed from inside received() leaves the I/O loop running (accept, maintenance)",
+               not probe_bad, "" if not probe_bad else "%s: %s" % probe_bad[0])
+    if probe_bad:
+        ctx.report("teardown-probe", "teardown from inside received(): " + "; ".join(t_ for _, t_ in probe_bad[:3]),
+                   {"probe": "teardown", "loop": None, "history": "connect; poll; client sends a head with Expect: 100-continue (Content-Length 5) and resets; poll; connect; adv 3; poll",
+                    "wire_hex": H.EXPECT_HEAD.hex(), "expected": "channel closed, loop keeps accepting and running maintenance",
+                    "observed": [t_ for _, t_ in probe_bad], "failing_input_found": True})
+
     # ---- (b) K-srv + (c) monitors
     nh = 1200 if ctx.tier == "quick" else 25000
     hist_len = 60 if ctx.tier == "quick" else 80
@@ -173,6 +211,7 @@ def run(ctx):
         cmds, dumps, events, obs = H.run_history(cfg, rng, hist_len)
         batch.append((cfg, cmds, dumps, events, obs))
         dist["cfg_listeners_%d" % cfg.listeners] += 1
+        dist["cfg_loop_%s" % ("poll2" if cfg.use_poll else "select")] += 1
         dist["cfg_limit_%s" % ("default" if cfg.limit == 100 else "small")] += 1
         if len(samples) < 3:
             samples.append({"config": cfg.as_dict(), "commands": cmds[1:13]})
@@ -181,6 +220,10 @@ def run(ctx):
             batch = []
     # scripted scenarios
     scripted = [H.scenario_f21(), H.scenario_limit_two_listeners(5), H.scenario_limit_two_listeners(8)]
+    for cfg0, evs0 in list(scripted):
+        d = cfg0.as_dict()
+        d["use_poll"] = True
+        scripted.append((H.Config(**d), evs0))
     for cfg, evs in scripted:
         cmds, dumps, events, obs = H.run_history(cfg, rng, 0, scripted=evs)
         batch.append((cfg, cmds, dumps, events, obs))
@@ -235,7 +278,7 @@ def run(ctx):
         ctx.notes.append("known finding %s no longer reproduces on the scripted F21 history" % KF)
 
     # broken tie / proof without a monitor hit: name what no longer checks
-    if not bad:
+    if not bad and not loop_bad and not probe_bad:
         if not srv_ok and first_mismatch is not None:
             ctx.report("k-srv-mismatch", "model and implementation disagree (no property monitor fired)",
                        dict(first_mismatch, failing_input_found=False, broken="K-srv correspondence"))
@@ -261,6 +304,19 @@ def replay(data):
     from harness import server as H
 
     logging.getLogger("waitress").setLevel(logging.CRITICAL + 1)
+    if data.get("probe") == "teardown":
+        bad = H.teardown_probe(False) + H.teardown_probe(True)
+        for b in bad:
+            print("PROBE", b)
+        return 1 if bad else 0
+    if "loop" in data:
+        n, bad = H.loop_search()
+        mine = [v for v in bad if v["loop"] == data["loop"] and v["what"] == data["what"]
+                and (v["readable"], v["writable"], v["accepting"]) == (data["readable"], data["writable"], data["accepting"])]
+        for v in mine[:3]:
+            print("LOOP", v)
+        print("%d turns run, %d violations, %d of the recorded kind" % (n, len(bad), len(mine)))
+        return 1 if mine else 0
     cfg = H.Config(**data["config"])
     events = [tuple(e) for e in data["events"]]
     cmds, dumps, evs, obs = H.run_history(cfg, random.Random(0), 0, scripted=events)
